@@ -130,6 +130,8 @@ pub struct XferMon {
     final_ack_faulted: BTreeMap<SocketAddr, bool>,
     /// clients whose ERROR datagram has reached a server endpoint
     error_at_server: BTreeMap<SocketAddr, bool>,
+    /// which peer currently speaks from a client address (endpoints can be reused by a later transfer)
+    active_peer: BTreeMap<SocketAddr, usize>,
     pub probes: BTreeMap<&'static str, u64>,
     inconclusive: bool,
     pub states: std::collections::BTreeSet<u64>,
@@ -180,6 +182,7 @@ impl XferMon {
             fault_weight: 0,
             final_ack_faulted: BTreeMap::new(),
             error_at_server: BTreeMap::new(),
+            active_peer: BTreeMap::new(),
             probes: BTreeMap::new(),
             inconclusive: false,
             states: Default::default(),
@@ -199,6 +202,11 @@ impl XferMon {
     }
 
     fn spec_of(&self, x: SocketAddr) -> Option<usize> {
+        if let Some(p) = self.active_peer.get(&x) {
+            if let Some(i) = self.specs.iter().position(|s| s.client == x && s.peer == *p) {
+                return Some(i);
+            }
+        }
         self.specs.iter().position(|s| s.client == x)
     }
 
@@ -748,6 +756,14 @@ impl Monitor for XferMon {
                 if *fate != Fate::Deliver {
                     self.note_fault(*fate);
                 }
+                if let (Actor::Peer(p), Ev::Send { src, .. }) = (actor, ev) {
+                    if self.active_peer.get(src) != Some(p) {
+                        self.active_peer.insert(*src, *p);
+                        // a new transfer from this address: earlier state about it is history
+                        self.error_at_server.remove(src);
+                        self.final_ack_faulted.remove(src);
+                    }
+                }
                 match actor {
                     Actor::Task(_) => {}
                     Actor::Peer(p) => {
@@ -757,9 +773,9 @@ impl Monitor for XferMon {
                                 if s.kind == Kind::Download {
                                     if let Some(Pkt::Ack(n)) = rfc::decode(data) {
                                         for t in self.tr.values() {
-                                            if t.x == s.client {
+                                            if t.x == s.client && self.specs[t.spec].peer == s.peer {
                                                 let nf = (s.content.len() / t.neg.b.max(1)) as u64 + 1;
-                                                if n == nf as u16 && t.highest_sent >= nf && nf - t.acked < 65536 {
+                                                if n == nf as u16 && t.highest_sent >= nf && nf.saturating_sub(t.acked) < 65536 {
                                                     self.final_ack_faulted.insert(s.client, true);
                                                 }
                                             }
